@@ -774,7 +774,8 @@ func (e *Env) call(x *Expr) Val {
 	case "istype", "cast":
 		// istype(x, "*T") / cast(x, "*T"): dynamic type test / projection of an interface value
 		b := e.rv(e.tr(x.Args[0]))
-		if b.Sort != "Iface" || len(x.Args) != 2 || x.Args[1].Op != "str" {
+		isLoc := name == "cast" && b.Sort == "Loc" // a ghost location read as a pointer of the named type
+		if (b.Sort != "Iface" && !isLoc) || len(x.Args) != 2 || x.Args[1].Op != "str" {
 			fail("usage: %s(<interface value>, \"*T\")", name)
 		}
 		tn := x.Args[1].Str
@@ -797,6 +798,9 @@ func (e *Env) call(x *Expr) Val {
 		}
 		if !ptr {
 			fail("cast supports pointer types only")
+		}
+		if isLoc {
+			return Val{T: b.T, Sort: "Loc", GoT: t}
 		}
 		return Val{T: "(i_val " + b.T + ")", Sort: "Loc", GoT: t}
 	case "atentry":
